@@ -73,6 +73,10 @@ def menu(h, tier="quick"):
                 n_added += 1
             if n_added >= 4:
                 break
+    # delete a leaf and add a node under the same parent: the new node reuses the low index but is
+    # the *last* child, so child order and index order disagree
+    for n in leaves[:2]:
+        out.append(["deladd", n.idx])
     # index reuse: free two leaves a < b, then add a container (reuses b) with a child (reuses a)
     if len(leaves) >= 2:
         out.append(["reuse", leaves[0].idx, leaves[-1].idx])
@@ -109,6 +113,10 @@ def apply(h, m):
         h.delete_link(s, d)
     elif k == "order":
         h.add_order_link(Node(m[1]), Node(m[2]))
+    elif k == "deladd":
+        par = h[Node(m[1])].parent
+        h.delete_node(Node(m[1]))
+        h.add_node(ops.Custom("readded", tys.FunctionType([], [tys.Bool], ["e.x"]), "", "e.x"), par, 1, metadata={"readded": m[1]})
     elif k == "reuse":
         h.delete_node(Node(m[1]))
         h.delete_node(Node(m[2]))
